@@ -10,7 +10,7 @@ ID = "C06"
 # look-alikes of prelude names (vlib/defs.py HOSTILE) this check's derives are immune to on the unchanged tree
 HOSTILE_OK = ['Default', 'From', 'Into', 'Result', 'Option', 'Some', 'Ok', 'Iterator', 'Clone', 'AsRef', 'Send', 'PhantomData', 'IterGet', 'm_matches', 'm_assert', 'm_fmt', 'c_binders', 'no_implicit_prelude']
 PROP_FILE = "Props/C06.v"
-THEOREMS = ["C06_iff", "C06_none", "C06_roundtrip", "C06_const", "C06_total", "C06_program", "C06_program_complete", "C06_nonvacuous"]
+THEOREMS = ["C06_iff", "C06_none", "C06_roundtrip", "C06_const", "C06_total", "C06_program", "C06_program_complete", "C06_repr_scan", "C06_nonvacuous"]
 RULE = ("definitions: repr type x explicit/implicit discriminant shapes (negative, gapped, descending, expression-valued) "
         "x every placement of disabled variants x variant kinds x generics; inputs: EVERY value of 8- and 16-bit "
         "discriminant types (sweep, compared as the table of Some entries), for wider types every discriminant and its "
@@ -87,6 +87,9 @@ def build_corpus(tier, rng):
             c.meta[k]["const"] = True
             c.add_q(k, "repr", ["const"], note="const")
         c.add_q(k, "repr", ["prog"], note="structure")      # answered by the model only; the real side is read from the expansion (extra_checks)
+        # the #[repr] attribute(s) AS WRITTEN, for the model's scan (C06_repr_scan); compared with the parameter type of the real from_repr
+        form = "|".join(r.replace(" ", "") for r in it.repr_form) if it.repr_form else (it.repr or "-")
+        c.add_q(k, "repr", ["scan", form], note="structure")
 
     # regression: the defect repaired by 3e1f5e6 (disabled variant must still occupy a discriminant)
     add(Item("E", [mk_variant("X", "unit", False), mk_variant("Y", "unit", True), mk_variant("Z", "unit", False)], repr="u8"), "regression")
@@ -259,7 +262,7 @@ def compare(corpus, k, kind, args, note, iobs, mobs, cfg):
 
 
 def query_in_config(cfg, kind, args):
-    return not (kind == "repr" and args and args[0] == "prog")
+    return not (kind == "repr" and args and args[0] in ("prog", "scan"))
 
 
 STRUCT = {}
@@ -285,6 +288,10 @@ def extra_checks(corpus, tier, model, impl):
         STRUCT["status"] = "token reader unavailable (harness/genprobe does not build)"
         return [], 0, {}
     progq = {k: n for (n, k, kind, args, note) in corpus.queries if kind == "repr" and args and args[0] == "prog"}
+    scanq = {k: n for (n, k, kind, args, note) in corpus.queries if kind == "repr" and args and args[0] == "scan"}
+    STRUCT["repr_scan"] = {"what": "Model scan_repr (C06_repr_scan: the last integer hint of all #[repr] attributes, usize when none) evaluated on the attribute(s) as "
+                                   "WRITTEN, compared with the parameter type of the real from_repr and with the integer type the harness renders its observers with",
+                           "checked": 0, "equal_to_the_real_parameter_type": 0, "equal_to_the_harness_type": 0, "different": []}
     lines, asked = [], {}
     for k, ml in sorted(mods.items()):
         if k not in progq or k not in corpus.defs:
@@ -306,6 +313,15 @@ def extra_checks(corpus, tier, model, impl):
                 STRUCT["different"].append({"definition": render_item(corpus.defs[k], []), "real": real[:300], "model": mobs[:300]})
         elif real == mobs:
             STRUCT["identical"] += 1
+            sc = model.get(scanq.get(k, -1))
+            if sc is not None:
+                rs = STRUCT["repr_scan"]
+                rs["checked"] += 1
+                real_ty = dict(p_.split("=", 1) for p_ in real.split("|")).get("ty")
+                rs["equal_to_the_real_parameter_type"] += int(sc == real_ty)
+                rs["equal_to_the_harness_type"] += int(sc == (corpus.defs[k].repr or "usize"))
+                if (sc != real_ty or sc != (corpus.defs[k].repr or "usize")) and len(rs["different"]) < 5:
+                    rs["different"].append({"definition": render_item(corpus.defs[k], []), "model_scan": sc, "real": real_ty})
         elif len(STRUCT["different"]) < 5:
             STRUCT["different"].append({"definition": render_item(corpus.defs[k], []), "real": real[:600], "model": mobs[:600]})
     return [], STRUCT["definitions_checked"], {}
